@@ -7,6 +7,7 @@ import (
 	"os/exec"
 	"sort"
 	"strings"
+	"sync"
 	"time"
 )
 
@@ -15,6 +16,7 @@ import (
 // per epoch as define-fun at level 0.
 type Solver struct {
 	kind      string // z3 | z3-new | cvc5
+	fresh     bool   // (reset) before every query instead of push/pop
 	timeoutMs int
 	cmd       *exec.Cmd
 	in        io.WriteCloser
@@ -35,8 +37,19 @@ type Solver struct {
 
 var solverEpochCounter = 0
 
-func newSolver(kind string, timeoutMs int) *Solver {
-	s := &Solver{kind: kind, timeoutMs: timeoutMs}
+var epochMu sync.Mutex
+var epochCounter int
+
+// epochs are unique across solvers so that one term can be defined in several
+func nextEpoch() int {
+	epochMu.Lock()
+	defer epochMu.Unlock()
+	epochCounter++
+	return epochCounter
+}
+
+func newSolver(kind string, timeoutMs int, fresh bool) *Solver {
+	s := &Solver{kind: kind, timeoutMs: timeoutMs, fresh: fresh}
 	s.start()
 	return s
 }
@@ -64,7 +77,7 @@ func (s *Solver) start() {
 		panic(err)
 	}
 	s.cmd, s.in, s.out = cmd, in, bufio.NewReaderSize(outp, 1<<16)
-	s.epoch++
+	s.epoch = nextEpoch()
 	s.nDefs = 0
 	s.send("(set-option :print-success false)")
 	if s.kind == "cvc5" {
@@ -197,7 +210,17 @@ func (s *Solver) Check(asserts []*Term, wantModel bool, extra []*Term) Result {
 		}
 	}()
 	s.Queries++
-	if s.nDefs > 200000 {
+	if s.fresh {
+		// a self-contained problem after (reset): z3's non-incremental
+		// pipeline decides some floating-point queries in a second that the
+		// incremental core selected by (push)/(pop) does not finish
+		s.send("(reset)")
+		if s.kind == "cvc5" {
+			s.send("(set-logic ALL)")
+			s.send("(set-option :produce-models true)")
+		}
+		s.epoch = nextEpoch()
+	} else if s.nDefs > 200000 {
 		s.restart()
 	}
 	for _, a := range asserts {
@@ -206,7 +229,9 @@ func (s *Solver) Check(asserts []*Term, wantModel bool, extra []*Term) Result {
 	for _, a := range extra {
 		s.define(a)
 	}
-	s.send("(push 1)")
+	if !s.fresh {
+		s.send("(push 1)")
+	}
 	for _, a := range asserts {
 		if a.IsTrue() {
 			continue
@@ -303,6 +328,38 @@ func (s *Solver) Check(asserts []*Term, wantModel bool, extra []*Term) Result {
 		s.restart()
 		return res
 	}
-	s.send("(pop 1)")
+	if !s.fresh {
+		s.send("(pop 1)")
+	}
 	return res
+}
+
+// standaloneSMT renders a query as a self-contained SMT-LIB2 script.
+func standaloneSMT(asserts []*Term) string {
+	var sb strings.Builder
+	sb.WriteString("(set-logic ALL)\n")
+	done := map[int]bool{}
+	var walk func(t *Term)
+	walk = func(t *Term) {
+		if done[t.id] || t.op == "const" {
+			return
+		}
+		done[t.id] = true
+		for _, a := range t.args {
+			walk(a)
+		}
+		if t.op == "var" {
+			fmt.Fprintf(&sb, "(declare-const |%s| %s)\n", t.name, t.sort.SMT())
+		} else {
+			fmt.Fprintf(&sb, "(define-fun t!%d () %s %s)\n", t.id, t.sort.SMT(), t.bodySMT())
+		}
+	}
+	for _, a := range asserts {
+		walk(a)
+	}
+	for _, a := range asserts {
+		fmt.Fprintf(&sb, "(assert %s)\n", a.leafSMT())
+	}
+	sb.WriteString("(check-sat)\n")
+	return sb.String()
 }
